@@ -1,7 +1,103 @@
 package main
 
-import "fmt"
+import (
+	"bytes"
+	"fmt"
+	"os"
+	"os/exec"
+	"path/filepath"
+	"strings"
 
-func buildInstrumented(variant, scratch string) (string, []string, string, error) {
-	return "", nil, "", fmt.Errorf("variant %s not built yet", variant)
+	"verif/mc/instr"
+)
+
+// buildInstrumented copies /repo's working tree to the scratch directory, rewrites the copy
+// (order: map ranges; sched: sync shim), checks that the repository's own suite still passes on
+// the rewritten copy (conformance of the instrumentation), and builds the worker against it.
+func buildInstrumented(variant, scratch string) (worker string, extraEnv []string, suiteNote string, err error) {
+	copyDir := filepath.Join(scratch, "goyang")
+	if err = instr.CopyTree(repoDir, copyDir); err != nil {
+		return
+	}
+	if err = instr.InstallRuntime(copyDir); err != nil {
+		return
+	}
+	if err = instr.BumpGoVersion(copyDir, "1.23"); err != nil {
+		return
+	}
+	rep, e := instr.Instrument(copyDir, []string{"pkg/yang", "pkg/indent", "."}, variant == "order", variant == "sched")
+	if e != nil {
+		return "", nil, "", fmt.Errorf("instrumenting: %v", e)
+	}
+	if variant == "order" && rep.MapRanges == 0 {
+		return "", nil, "", fmt.Errorf("instrumenter found no range-over-map statement")
+	}
+	if variant == "sched" && rep.SyncImports == 0 {
+		return "", nil, "", fmt.Errorf("instrumenter found no sync import")
+	}
+	// conformance: the repository's own tests on the rewritten copy (canonical order / free-running)
+	skipSuite := os.Getenv("VERIF_SKIP_SUITE") != ""
+	if !skipSuite {
+		cmd := exec.Command("go", "test", "-vet=off", "-count=1", "./...")
+		cmd.Dir = copyDir
+		cmd.Env = goEnv()
+		var out bytes.Buffer
+		cmd.Stdout, cmd.Stderr = &out, &out
+		if e := cmd.Run(); e != nil {
+			return "", nil, "", fmt.Errorf("the repository's own suite fails on the instrumented copy (instrumentation does not conform, or /repo does not pass its suite):\n%s", tail(out.String(), 3000))
+		}
+		suiteNote = fmt.Sprintf("repository suite passes on the instrumented copy (%d map ranges rewritten, %d sync imports redirected)", rep.MapRanges, rep.SyncImports)
+	} else {
+		suiteNote = fmt.Sprintf("suite skipped by VERIF_SKIP_SUITE (%d map ranges rewritten, %d sync imports redirected)", rep.MapRanges, rep.SyncImports)
+	}
+	// module file pointing the harness at the copy
+	b, err := os.ReadFile(filepath.Join(verifDir, "mc", "go.mod"))
+	if err != nil {
+		return
+	}
+	mod := strings.Replace(string(b), "=> "+"/repo", "=> "+copyDir, 1)
+	mod = strings.Replace(mod, "go 1.22.0", "go 1.23", 1)
+	modfile := filepath.Join(scratch, "go.mod")
+	if err = os.WriteFile(modfile, []byte(mod), 0o644); err != nil {
+		return
+	}
+	sum, _ := os.ReadFile(filepath.Join(repoDir, "go.sum"))
+	os.WriteFile(filepath.Join(scratch, "go.sum"), sum, 0o644)
+	worker = filepath.Join(scratch, "worker")
+	os.Remove(worker)
+	args := []string{"build", "-modfile=" + modfile, "-tags", "verif", "-o", worker}
+	if variant == "sched" {
+		args = append(args, "-race")
+	}
+	args = append(args, "./cmd/worker")
+	cmd := exec.Command("go", args...)
+	cmd.Dir = filepath.Join(verifDir, "mc")
+	cmd.Env = goEnv()
+	var out bytes.Buffer
+	cmd.Stdout, cmd.Stderr = &out, &out
+	if e := cmd.Run(); e != nil {
+		return "", nil, "", fmt.Errorf("%v\n%s", e, out.String())
+	}
+	if variant == "order" {
+		// the instrumented command-line tool, for the reproducibility of its renderings
+		cli := filepath.Join(scratch, "goyang-cli")
+		cmd := exec.Command("go", "build", "-o", cli, ".")
+		cmd.Dir = copyDir
+		cmd.Env = goEnv()
+		out.Reset()
+		cmd.Stdout, cmd.Stderr = &out, &out
+		if e := cmd.Run(); e != nil {
+			return "", nil, "", fmt.Errorf("building the instrumented goyang command: %v\n%s", e, out.String())
+		}
+		extraEnv = append(extraEnv, "VERIF_CLI="+cli)
+	}
+	extraEnv = append(extraEnv, "VERIF_SCRATCH_DIR="+scratch)
+	return worker, extraEnv, suiteNote, nil
+}
+
+func tail(s string, n int) string {
+	if len(s) > n {
+		return s[len(s)-n:]
+	}
+	return s
 }
